@@ -571,7 +571,15 @@ func (op *ShellOperator) taskHandleHookRun(t task.Task) queue.TaskResult {
 			}
 		}
 		if shouldCombine {
-			combineResult := op.combineBindingContextForHook(op.TaskQueues, op.TaskQueues.GetByName(t.GetQueueName()), t, nil)
+			var stopCombineFn func(tsk task.Task) bool
+			if isSynchronization {
+				// Do not absorb a Synchronization that must not execute the hook.
+				stopCombineFn = func(tsk task.Task) bool {
+					tskMeta := task_metadata.HookMetadataAccessor(tsk)
+					return tskMeta.IsSynchronization() && !tskMeta.ExecuteOnSynchronization
+				}
+			}
+			combineResult := op.combineBindingContextForHook(op.TaskQueues, op.TaskQueues.GetByName(t.GetQueueName()), t, stopCombineFn)
 			if combineResult != nil {
 				hookMeta.BindingContext = combineResult.BindingContexts
 				// Extra monitor IDs can be returned if several Synchronization for Group are combined.
